@@ -3,7 +3,12 @@ package checks
 import (
 	"encoding/json"
 	"fmt"
+	"os"
+	"os/exec"
+	"path/filepath"
 	"strconv"
+	"strings"
+	"sync"
 	"sync/atomic"
 
 	"github.com/alttpo/snes/mapping/exhirom"
@@ -48,6 +53,8 @@ type mapCase struct {
 	// Cold: Addr was met in the scrambled-order sweep that comes first in the process; the replay first
 	// translates the addresses that sweep touched first in Addr's 64 KiB / 32 KiB / 8 KiB / 256-byte block
 	Cold bool `json:"cold,omitempty"`
+	// LinkedAlone: found by the binary that links only this mapper package (cmd/verifone)
+	LinkedAlone bool `json:"linked_alone,omitempty"`
 	// Want: with HasPrev, the answer for Addr in a plain ascending sweep ($FFFFFFFF: error)
 	Want uint32 `json:"want,omitempty"`
 }
@@ -90,11 +97,26 @@ func mapColdSweep(r *report.Run, check func(m *mapper, dir string, a uint32) []m
 
 type mapFinding struct{ sig, what string }
 
+// mapOneBinary runs the binary that links only one mapper package (built by ./run into VERIF_ONE_BINDIR).
+func mapOneBinary(mapperName string, args ...string) (string, error) {
+	dir := os.Getenv("VERIF_ONE_BINDIR")
+	if dir == "" {
+		return "", fmt.Errorf("VERIF_ONE_BINDIR not set (./run builds the single-mapper binaries)")
+	}
+	out, err := exec.Command(filepath.Join(dir, "verifone_"+mapperName), args...).Output()
+	if err != nil && len(out) == 0 {
+		return "", err
+	}
+	return string(out), nil
+}
+
 // mapNeighbourProbe: the answer for an address must not depend on which address was translated just
 // before (a "last translation" cache keyed on part of the address would). Per mapper and direction the
 // answers of a plain ascending sweep are tabulated; then for every address a and every bit 8..23 the
 // neighbour a^bit is translated right after a and must give its tabulated answer.
 const mapErr = 0xFFFFFFFF
+
+var mapStrides = []int32{1, 2, 3, 4, 5, 16, 256, -1, -2, -3, -4, -16}
 
 func mapNeighbourProbe(r *report.Run) (hist int64) {
 	table := make([]uint32, 1<<24)
@@ -120,8 +142,12 @@ func mapNeighbourProbe(r *report.Run) (hist int64) {
 				var n int64
 				for o := uint32(0); o < 0x10000; o++ {
 					a := base | o
-					for k := uint(8); k < 24; k++ {
-						nb := a ^ (1 << k)
+					for k := uint(8); k < 24+uint(len(mapStrides)); k++ {
+						nb := a ^ (1 << (k & 31))
+						if k >= 24 {
+							// ... and every address a few bytes ahead or behind (walking words, pointers, lines)
+							nb = (a + uint32(mapStrides[k-24])) & 0xFFFFFF
+						}
 						callMap(f, a)
 						r1, e1, p1 := callMap(f, nb)
 						n += 2
@@ -197,6 +223,16 @@ func replayMapCase(f func(m *mapper, dir string, a uint32) []mapFinding) func(js
 		}
 		if c.HasPrev || c.PrevMapper != "" {
 			return mapHistoryProbe(c)
+		}
+		if c.LinkedAlone {
+			out, err := mapOneBinary(c.Mapper, c.Dir, fmt.Sprintf("%06x", c.Addr))
+			if err != nil {
+				return "", err
+			}
+			if strings.HasPrefix(out, "ONE-BAD") {
+				return strings.TrimSpace(out), fmt.Errorf("unexplained:linked-alone:%s", c.Mapper)
+			}
+			return "in a program that links only this mapper the address translates as the region table says", nil
 		}
 		if c.Mapper == "sentinel" {
 			if fs := c05SentinelProbe(); len(fs) > 0 {
@@ -343,7 +379,7 @@ func runC04(r *report.Run) {
 	r.Set("history_probe_calls", hist)
 	r.Set("evaluations", evals)
 	r.Set("distinct_nontrivial", mapped)
-	r.Set("rule", "all 2^24 bus addresses (clause i) and all 2^24 FX Pak Pro addresses (clause ii) for each of the 4 mappers; a case is non-trivial when the address is translated (not the unmapped-error path), and then both directions are really composed on the implementation; first-touch order: the first sweep of the process enumerates the addresses in scrambled order (native build) or ascending order (386 build), the other order follows; history probe: for every address and every bit 8..23, the translation of a right after the translation of a with that bit flipped must equal the translation of a")
+	r.Set("rule", "all 2^24 bus addresses (clause i) and all 2^24 FX Pak Pro addresses (clause ii) for each of the 4 mappers; a case is non-trivial when the address is translated (not the unmapped-error path), and then both directions are really composed on the implementation; first-touch order: the first sweep of the process enumerates the addresses in scrambled order (native build) or ascending order (386 build), the other order follows; history probe: for every address a, every neighbour (a with one of bits 8..23 flipped; a+k for k = 1..5, 16, 256, -1..-4, -16) translated right after a must give the answer it gave in a plain sweep")
 	r.Set("exhaustive", true)
 	r.Sample(mapCase{Mapper: "lorom", Dir: "bus", Addr: 0xFE0000})
 	r.Sample(mapCase{Mapper: "lorom", Dir: "pak", Addr: 0xE70000})
@@ -460,6 +496,31 @@ func c05SentinelProbe() []mapFinding {
 }
 
 func runC05(r *report.Run) {
+	// which packages are LINKED is an input too: each mapper once more in a binary that imports it alone
+	if os.Getenv("VERIF_ONE_BINDIR") != "" && strconv.IntSize == 64 {
+		var mu sync.Mutex
+		ok := 0
+		par.For(len(mappers), func(_, i int) {
+			m := &mappers[i]
+			out, err := mapOneBinary(m.Name)
+			mu.Lock()
+			defer mu.Unlock()
+			switch {
+			case err != nil:
+				r.Incomplete("single-mapper binary for " + m.Name + " did not run: " + err.Error())
+			case strings.HasPrefix(out, "ONE-BAD"):
+				f := strings.Fields(out)
+				var a uint32
+				fmt.Sscanf(f[2], "%x", &a)
+				r.Violation("unexplained:linked-alone:"+m.Name, strings.TrimSpace(out), mapCase{Mapper: m.Name, Dir: f[1], Addr: a, LinkedAlone: true})
+			case strings.HasPrefix(out, "ONE-OK"):
+				ok++
+			default:
+				r.Incomplete("single-mapper binary for " + m.Name + " printed " + strings.TrimSpace(out))
+			}
+		})
+		r.Set("single_mapper_binaries_ok", ok)
+	}
 	for _, f := range c05SentinelProbe() {
 		r.Violation(f.sig, f.what, mapCase{Mapper: "sentinel", Dir: "bus", Addr: 0x002000})
 	}
@@ -555,7 +616,7 @@ func runC05(r *report.Run) {
 	r.Set("cross_mapper_probe_calls", cross)
 	r.Set("evaluations", evals)
 	r.Set("distinct_nontrivial", mapped)
-	r.Set("rule", "first-touch order: the first sweep of the process enumerates the addresses in scrambled order (native build) or ascending order (386 build), the other order follows; history probe: every address again right after a neighbour differing in one of bits 8..23; cross-mapper probe: every address is translated by each mapper again right after each other mapper was asked about it (same answer required); all 2^24 bus addresses and all 2^24 pak addresses x 4 mappers, five facets each (error shape/class windows, pak reject window, console-owned map, 8 KiB page uniformity and order, region table); non-trivial = address inside a mapped region of the reference table (bus) or outside the reject window (pak)")
+	r.Set("rule", "first-touch order: the first sweep of the process enumerates the addresses in scrambled order (native build) or ascending order (386 build), the other order follows; history probe: every neighbour (one of bits 8..23 flipped; a+k for k = 1..5, 16, 256, -1..-4, -16) translated right after a must give the answer of a plain sweep; cross-mapper probe: every address is translated by each mapper again right after each other mapper was asked about it (same answer required); all 2^24 bus addresses and all 2^24 pak addresses x 4 mappers, five facets each (error shape/class windows, pak reject window, console-owned map, 8 KiB page uniformity and order, region table); non-trivial = address inside a mapped region of the reference table (bus) or outside the reject window (pak)")
 	r.Set("exhaustive", true)
 	r.Set("facets", []string{"a:error-shape+class-window", "b:pak-reject-window", "c:console-owned-map", "d:8KiB-page-uniform+ordered", "e:region-table"})
 	r.Sample(mapCase{Mapper: "lorom", Dir: "bus", Addr: 0x7E1234})
